@@ -109,6 +109,29 @@ func WrapGlobalIndexAsElementInit(init Index) Index {
 	return init | elementInitImportedGlobalReferenceType
 }
 
+// typeOfGlobal returns the type of the global at the given index of the global index space (imports first).
+// ok is false if the module does not describe a global at that index.
+func (m *Module) typeOfGlobal(index Index) (_ GlobalType, ok bool) {
+	if index < m.ImportGlobalCount {
+		cur := Index(0)
+		for i := range m.ImportSection {
+			imp := &m.ImportSection[i]
+			if imp.Type != ExternTypeGlobal {
+				continue
+			}
+			if cur == index {
+				return imp.DescGlobal, true
+			}
+			cur++
+		}
+		return GlobalType{}, false
+	}
+	if i := index - m.ImportGlobalCount; i < uint32(len(m.GlobalSection)) {
+		return m.GlobalSection[i].Type, true
+	}
+	return GlobalType{}, false
+}
+
 // IsActive returns true if the element segment is "active" mode which requires the runtime to initialize table
 // with the contents in .Init field.
 func (e *ElementSegment) IsActive() bool {
@@ -181,6 +204,11 @@ func (m *Module) validateTable(enabledFeatures api.CoreFeatures, tables []Table,
 			if ok {
 				if index >= globalsCount {
 					return fmt.Errorf("%s[%d].init[%d] global index %d out of range", SectionIDName(SectionIDElement), idx, ei, index)
+				}
+				// The value of the global becomes a reference in the table: it has to be one of the segment's type.
+				if gt, ok := m.typeOfGlobal(index); ok && gt.ValType != elem.Type {
+					return fmt.Errorf("%s[%d].init[%d] type mismatch: global[%d] is %s, but the element type is %s",
+						SectionIDName(SectionIDElement), idx, ei, index, ValueTypeName(gt.ValType), RefTypeName(elem.Type))
 				}
 			} else {
 				if elem.Type == RefTypeExternref {
